@@ -1073,7 +1073,7 @@ def cas5(ctx, c):
         if n.startswith("read_") and n not in ("read_file", "read_blocks", "read_word") and len(f.params) >= 2:
             helpers["self." + n] = f.node
     try:
-        it = Interp(rf.node, sub_bases=("self.buffer",), call_syms={"self.skip_to_sequence": "F"},
+        it = Interp(rf.node, consts={**ctx.env, **ctx.self_env(CLS)}, sub_bases=("self.buffer",), call_syms={"self.skip_to_sequence": "F"},
                     call_ctors=("self.read_word", "self.read_blocks"), inline=helpers)
         res = it.run()
     except PathCap as e:
@@ -1151,7 +1151,7 @@ def cas5(ctx, c):
     c.floor("read_file return paths building a CoCoFile", nret, 1)
     # name helper reads K bytes
     for hname, hnode in helpers.items():
-        sub = Interp(hnode, sub_bases=("self.buffer",), init_env={hnode.args.args[1].arg: Opq("P")})
+        sub = Interp(hnode, consts={**ctx.env, **ctx.self_env(CLS)}, sub_bases=("self.buffer",), init_env={hnode.args.args[1].arg: Opq("P")})
         adv = set()
         for o in sub.run():
             if o.kind == "return" and isinstance(o.value, Ctor) and o.value.cls == "list" and len(o.value.args) == 2:
@@ -1234,7 +1234,7 @@ def cas5(ctx, c):
     loops = [n for n in ast.walk(rb.node) if isinstance(n, ast.For)]
     c.shape("eof" in seen_arms and "data" in seen_arms, "read_blocks:arms", "EOF and data arms found", "arms recognised: %s" % sorted(seen_arms), whereb)
     # data payload read offsets: evaluate the loop body read with the loop variable symbolic
-    it2 = Interp(rb.node, sub_bases=("self.buffer",), call_syms={"self.skip_to_sequence": "F"})
+    it2 = Interp(rb.node, consts={**ctx.env, **ctx.self_env(CLS)}, sub_bases=("self.buffer",), call_syms={"self.skip_to_sequence": "F"})
     offs = set()
 
     def hook_expr(interp, p, s):
@@ -1249,7 +1249,9 @@ def cas5(ctx, c):
     except PathCap:
         pass
     good = any(re.fullmatch(r"Lin\(F1\+\w+\+4\)", x.replace(" ", "")) for x in offs) and len(offs) == 1
-    if offs:
+    if offs and not good and any(re.search(r"len\(|<\?!|[A-Z_]{3,}", x) for x in offs):
+        c.undecided("read_blocks:payload", "payload-offset-not-affine", str(sorted(offs))[:100], whereb)
+    elif offs:
         c.check(good, "read_blocks:payload", "data[i] = frame[4 + i]", "payload read at %s" % sorted(offs),
                 "read_blocks copies payload bytes from %s, the payload starts at frame offset 4" % sorted(offs), whereb)
     else:
@@ -1292,6 +1294,15 @@ def cas5b(ctx, c):
                       % (U(refused[0].test)[:70], refused[1], refused[2]), repo.loc(rfm, refused[0]))
         else:
             c.ok("read_file:refuses-field", "no header is refused for the value of its type / flag fields", repo.loc(rfm, rfm.node))
+    # "this file has no data" is a statement about how many bytes were read, never about their values: a file of zero bytes ($00 $00 ...) has data
+    if rfm is not None:
+        for n in ast.walk(rfm.node):
+            if isinstance(n, ast.If):
+                by_value = [x for x in ast.walk(n.test) if isinstance(x, ast.Call) and U(x.func) in ("any", "all", "sum", "max", "min") and x.args and re.search(r"data|block|payload", U(x.args[0]))]
+                if by_value:
+                    c.finding("read_file:no-data-test", "the file is taken to have no data by the VALUES of its bytes (%s)" % U(n.test)[:40],
+                              "CassetteFile.read_file decides `%s`: a file whose bytes are all $00 is read as a file without data, so it - and, because list_files stops there, every file "
+                              "after it - is missing from the listing" % U(n.test)[:60], repo.loc(rfm, n))
     # a tape may carry any amount of leader and blank between blocks: the readers do not give up after a fixed distance
     bounded = None
     for f in [m_ for n_, m_ in C.methods.items() if n_ in ("read_blocks", "read_file", "list_files", "skip_to_sequence")]:
